@@ -4,7 +4,7 @@ from common import *
 import core, c01
 
 CANON = {"upper": False, "or": 0, "not": 0, "assign": False, "single": False, "dot": False, "this": False,
-         "indent": 2, "tab": False, "comments": False, "blanks": False, "breaks": False, "tq": False}
+         "indent": 2, "tab": False, "comments": False, "blanks": False, "breaks": False, "sep": 0, "crlf": False, "tq": False}
 
 TQ_ERR = "Unable to resolve type block query"
 
@@ -26,7 +26,7 @@ def styles(res):
             j["nd"] = t[1]
             by_nd[t[1]] = by_nd.get(t[1], 0) + 1
             f.write(json.dumps(j) + "\n")
-    if by_nd.get(1, 0) != 16 or len(ts) != 27648:
+    if by_nd.get(1, 0) != 19 or len(ts) != 165888:
         raise ToolError("MC_Syntax: unexpected style space %s" % by_nd)
     res.cov["style_space"] = {"vectors": len(ts), "single_class_deviations": by_nd.get(1, 0)}
     return path
@@ -124,8 +124,8 @@ def run(tier):
     missing = [c for c in list(CANON) + ["mix", "bare"] if c not in res.cov["classes_exercised"] and c not in ("tq", "bare")]
     if missing:
         raise ToolError("style classes never exercised: %s" % missing)
-    res.cov["rule"] = ("MC_Syntax enumerates the 27648 style vectors (13 token / layout classes); every generated AST (4 generator "
-                       "configurations) is written canonically and under all 16 single-class deviations, sampled multi-class vectors and "
+    res.cov["rule"] = ("MC_Syntax enumerates the 165888 style vectors (15 token / layout classes); every generated AST (4 generator "
+                       "configurations) is written canonically and under all 19 single-class deviations, sampled multi-class vectors and "
                        "per-occurrence mixtures; each text goes through parse-tree --print-json and run_checks; TraceSyntax judges the "
                        "canonical line against Denote and relates every variant to it (same-program, same-verdicts, type-block-is-query, default-rule)")
     return res.finish()
